@@ -170,6 +170,7 @@ class Protocol(Case):
                     exc = ex
                 new_log = log[log_before:]
                 polls_failed = any(k == "poll" and not ok for k, i, ok in new_log)
+                n_polls = sum(1 for k, i, ok in new_log if k == "poll")
                 failed = [i for k, i, ok in new_log if k == "recv" and not ok]
                 sent_now = [len(p.sent) - b for p, b in zip(pipes, sent_before)]
                 if broken and call not in ("close", "close_terminate"):
@@ -217,6 +218,8 @@ class Protocol(Case):
                     if state != WAIT_OF[kind]:
                         res.append(Ob(f"{tag}/no-matching-pending-call-raises-NoAsyncCallError", isinstance(exc, NoAsyncCallError) and not any(sent_now)))
                         res.append(Ob(f"{tag}/state-unchanged-(environment-still-usable)", env._state == state))
+                    elif self.timeout is not None and not polls_failed and n_polls < E:
+                        res.append(Ob(f"{tag}/with-a-timeout-(also-0)-every-worker-is-polled-before-its-reply-is-read", False, site="AsyncPettingZooVecEnv._poll_pipe_envs/timeout-zero"))
                     elif polls_failed:
                         res.append(Ob(f"{tag}/timeout-is-reported-as-a-timeout", isinstance(exc, mp.TimeoutError)))
                         state = AsyncState.DEFAULT
